@@ -142,8 +142,8 @@ def get_binop_instruction(op: str):
         "/": ("div", lambda x, y: _e(x) / _e(y)),
         "%": ("mod", lambda x, y: _e(x) % _e(y)),
         "**": ("pow", lambda x, y: _e(x) ** _e(y)),
-        "and": ("and", lambda x, y: _e(x) and _e(y)),
-        "or": ("or", lambda x, y: _e(x) or _e(y)),
+        "and": ("and", lambda x, y: int(_e(x)) & int(_e(y))),
+        "or": ("or", lambda x, y: int(_e(x)) | int(_e(y))),
         "^": ("xor", lambda x, y: int(_e(x)) ^ int(_e(y))),
         "&": ("and", lambda x, y: int(_e(x)) & int(_e(y))),
         ">>": ("srl", lambda x, y: int(_e(x)) >> int(_e(y))),
